@@ -354,6 +354,10 @@ func TestC03(t *testing.T) {
 	cfg := numgen.GenCfg{MaxDepth: 3, MaxStmts: 3, OnlySends: false, Coverable: true}
 	cfg.AvoidKeptReserve = true
 	runProp(t, c, func(rt *rapid.T) {
+		if rapid.IntRange(0, 19).Draw(rt, "incompletePortions") == 0 {
+			c03IncompletePortions(rt, c)
+			return
+		}
 		cs := numgen.GenTyped(rt, cfg)
 		impl := runImpl(cs.Text, cs.Env, nil)
 		labels := append([]string{"impl:" + impl.Class}, cs.Labels...)
